@@ -451,6 +451,16 @@ func (e *Engine) step(s *State, fr *Frame, in ssa.Instruction) ([]*State, bool) 
 		return e.execRunDefers(s, fr, x)
 	case *ssa.Go:
 		e.abstract(fmt.Sprintf("goroutine spawned at %s: body not part of the spawning function's contract", posString(e.fset, x.Pos())))
+		{
+			// "at callee#n before ..." clauses also apply to go statements (arguments are evaluated by the spawner)
+			cc := x.Common()
+			var args []Value
+			for _, a := range cc.Args {
+				args = append(args, s.get(fr, a))
+			}
+			anchor := fmt.Sprintf("%s#%d", calleeShortName(cc), e.callOrdinal(x))
+			e.applyAts(s, fr, anchor, "before", cc, args, nil, x)
+		}
 		return nil, false
 	case *ssa.Jump:
 		return e.transfer(s, fr, fr.block.Succs[0], in)
@@ -624,6 +634,60 @@ func (e *Engine) havocLoop(s *State, fr *Frame, li *LoopInfo) {
 		li.Writes = e.writeSetOfBlocks(fr.fn, li.Blocks, nil)
 	}
 	e.havocWrites(s, fr, li.Writes, fmt.Sprintf("loop%d", li.Ordinal))
+	e.havocLoopGhosts(s, fr, li)
+}
+
+// havocLoopGhosts forgets every ghost variable that a "set" clause anchored inside the loop body may assign:
+// in the arbitrary iteration its value is whatever earlier iterations left (constrained only by the invariants).
+func (e *Engine) havocLoopGhosts(s *State, fr *Frame, li *LoopInfo) {
+	c := fr.contract
+	if c == nil || len(c.Ats) == 0 || len(c.Ghosts) == 0 {
+		return
+	}
+	anchors := map[string]bool{}
+	mapOrd := 0
+	for _, b := range fr.fn.Blocks {
+		for _, in := range b.Instrs {
+			if _, ok := in.(*ssa.MapUpdate); ok {
+				mapOrd++
+				if li.Blocks[b] {
+					anchors[fmt.Sprintf("mapupdate#%d", mapOrd)] = true
+				}
+				continue
+			}
+			if !li.Blocks[b] {
+				continue
+			}
+			if cc := dstCommon(in); cc != nil {
+				name := calleeShortName(cc)
+				anchors[fmt.Sprintf("%s#%d", name, e.callOrdinal(in))] = true
+				anchors[name+"#*"] = true
+			}
+		}
+	}
+	for _, at := range c.Ats {
+		if at.Kind != "set" || !anchors[at.Anchor] {
+			continue
+		}
+		for _, g := range c.Ghosts {
+			if g.Name != at.Target {
+				continue
+			}
+			env := &Env{s: s, fr: fr, vars: map[string]Value{}, vtypes: map[string]types.Type{}}
+			if fr.fn.Pkg != nil {
+				env.pkg = fr.fn.Pkg.Pkg
+			}
+			ty, sort, err := e.resolveType(env, g.Type)
+			if err != nil {
+				e.bail("ghost %s: %v", g.Name, err)
+			}
+			if ty != nil {
+				fr.ghosts[g.Name] = s.fresh("ghost."+g.Name, ty)
+			} else {
+				fr.ghosts[g.Name] = e.u.Fresh("ghost."+g.Name, sort)
+			}
+		}
+	}
 }
 
 // havocReaderPos forgets the position of one reader of the model (its length and data stay).
